@@ -129,6 +129,7 @@ def check(ctx, replay=None):
     rows = []
     nrec = 0
     ndiv = 0
+    nfailed = 0
     for cfg, (obs, err) in results:
         if obs is None:
             ctx.skip("recorder failed: " + err)
@@ -137,8 +138,9 @@ def check(ctx, replay=None):
             if (cfg.get("divergent") or cfg.get("block")) and cfg["flags"] & 1:
                 ndiv += 1     # refused thread-sync / unavailable seccomp(2) reported as an error: admissible, nothing to validate
                 continue
-            ctx.violation("a valid filter with NoNewPrivs could not be loaded with flags %#x: %s" % (cfg["flags"], obs.get("error")),
-                          {"config": cfg, "recording": obs, "how": "./check C10 --replay <this file>"})
+            # C10 speaks about loads that return nil; a load that fails is judged by C09 / C11 (not by this check)
+            ctx.skip("load with flags %#x failed (%s): nothing to validate for C10" % (cfg["flags"], (obs.get("error") or "")[:80]))
+            nfailed += 1
             continue
         if (cfg.get("divergent") or cfg.get("block")) and cfg["flags"] & 1:
             # nil although another thread carries a divergent filter / seccomp(2) is unavailable: judged directly by the statement
@@ -152,7 +154,7 @@ def check(ctx, replay=None):
         ctx.cov["evaluations"] += sum(len(t["probes"]) for t in obs["threads"])
         if any(p["filtered"] and not p["saw"] for t in obs["threads"] for p in t["probes"]):
             ctx.cov["distinct_nontrivial"] += 1
-    if nrec + ndiv < len(work) // 2:
+    if nrec + ndiv + nfailed < len(work) // 2:
         raise vlib.Machinery("only %d of %d recordings succeeded" % (nrec, len(work)))
     # concatenate into a few trace files, validate in parallel
     nfiles = 8
